@@ -17,7 +17,7 @@ JU = 'rbql-js/csv_utils.js'
 
 EDITS = [
     ('py-nr-assign-form', E, "        NR += 1\n        NF = len(record_a)", "        NR = NR + 1\n        NF = len(record_a)"),
-    ('py-copy-idiom-list', E, "up_fields = record_a[:]", "up_fields = list(record_a)"),
+    ('py-copy-idiom-list', E, "up_fields = record_a[:]", "up_fields = list(record_a)", 2),
     ('py-template-init-order', E, "    NR = 0\n    NU = 0\n    stop_flag = False", "    stop_flag = False\n    NU = 0\n    NR = 0"),
     ('py-topwriter-rename-local', E, "        success = self.subwriter.write(record)\n        if success:\n            self.NW += 1\n        return success", "        accepted = self.subwriter.write(record)\n        if accepted:\n            self.NW = self.NW + 1\n        return accepted"),
     ('py-uniq-direct-return', E, "        if not self.subwriter.write(record):\n            return False\n        return True\n\n    def finish(self):\n        self.subwriter.finish()\n\n\nclass UniqCountWriter", "        return self.subwriter.write(record)\n\n    def finish(self):\n        self.subwriter.finish()\n\n\nclass UniqCountWriter"),
@@ -34,13 +34,22 @@ EDITS = [
     ('py-hashjoin-local-rename', E, None, None),
     ('py-unparse-roundtrip-csv-utils', U, None, None),
     ('py-unparse-roundtrip-csv', C, None, None),
-    ('js-copy-idiom-spread', J, "let up_fields = record_a.slice();", "let up_fields = [...record_a];"),
+    ('js-copy-idiom-spread', J, "let up_fields = record_a.slice();", "let up_fields = [...record_a];", 2),
     ('js-nr-assign-form', J, "    NR += 1;\n    let NF = record_a.length;", "    NR = NR + 1;\n    let NF = record_a.length;"),
     ('js-topwriter-counter-form', J, "        await this.subwriter.write(record);\n        this.NW += 1;", "        await this.subwriter.write(record);\n        this.NW = this.NW + 1;"),
     ('js-safe-get-if-form', J, "    return idx < record.length ? record[idx] : null;", "    if (idx < record.length)\n        return record[idx];\n    return null;"),
     ('js-like-rename-locals', J, None, None),
     ('js-split-lines-respelled', JU, "    return text.split(/\\r\\n|\\r|\\n/);", "    return text.split(/(?:\\r\\n)|\\r|\\n/);"),
     ('js-chunk-rename-locals', JC, None, None),
+    # round 2: benign twins of seeded defects
+    ('py-pure-regex-memo', U, "def extract_next_field(src, dlm, preserve_quotes_and_whitespaces, allow_external_whitespaces, cidx, result):\n    warning = False\n    rgx = field_rgx_external_whitespaces if allow_external_whitespaces else field_rgx\n", "_rgx_memo = dict()\n\n\ndef _get_field_rgx(allow_external_whitespaces):\n    rgx = _rgx_memo.get(allow_external_whitespaces)\n    if rgx is None:\n        spaces = ' *' if allow_external_whitespaces else ''\n        rgx = re.compile(spaces + field_regular_expression + spaces)\n        _rgx_memo[allow_external_whitespaces] = rgx\n    return rgx\n\n\ndef extract_next_field(src, dlm, preserve_quotes_and_whitespaces, allow_external_whitespaces, cidx, result):\n    warning = False\n    rgx = _get_field_rgx(allow_external_whitespaces)\n"),
+    ('py-sortedwriter-drop-buffer-after-sort', E, "        for e in sorted_entries:\n            if not self.subwriter.write(e[1]):\n                break\n        self.subwriter.finish()", "        self.unsorted_entries = None\n        for e in sorted_entries:\n            if not self.subwriter.write(e[1]):\n                break\n        self.subwriter.finish()"),
+    ('py-csvwriter-stmt-before-width-check', C, "    def write(self, fields):\n        if self.header_len is not None and len(fields) != self.header_len:", "    def write(self, fields):\n        num_fields = len(fields)\n        if self.header_len is not None and num_fields != self.header_len:"),
+    ('py-main-delim-presence-var', 'rbql-py/rbql/rbql_main.py', "        if args.delim is None:\n            show_error('generic', 'Separator must be provided", "        delim_missing = args.delim is None\n        if delim_missing:\n            show_error('generic', 'Separator must be provided"),
+    ('py-combine-helper-var', E, "            select_expression = combine_string_literals(select_expression, string_literals)\n", "            select_expression_with_literals = combine_string_literals(select_expression, string_literals)\n            select_expression = select_expression_with_literals\n"),
+    ('js-replace-all-loop', J, "    return src.split(search).join(replacement);", "    let parts = src.split(search);\n    return parts.join(replacement);"),
+    ('js-like-matcher-const', J, "    let matcher = query_context.like_regex_cache.get(pattern);\n    if (matcher === undefined) {\n        matcher = new RegExp(like_to_regex(pattern));\n        query_context.like_regex_cache.set(pattern, matcher);\n    }\n    return matcher.test(text);", "    let matcher = query_context.like_regex_cache.get(pattern);\n    if (matcher === undefined) {\n        let compiled = new RegExp(like_to_regex(pattern));\n        query_context.like_regex_cache.set(pattern, compiled);\n        matcher = compiled;\n    }\n    return matcher.test(text);"),
+    ('js-normalize-fields-local', JC, "                this.normalize_fields(out_fields[i]);\n                out_fields[i] = out_fields[i].join(this.sub_array_delim);", "                this.normalize_fields(out_fields[i]);\n                let joined = out_fields[i].join(this.sub_array_delim);\n                out_fields[i] = joined;"),
     ('js-select-unnested-loop-var', J, "    for (var i = 0; i < query_context.unnest_list.length; i++) {\n        out_fields[unnest_pos] = query_context.unnest_list[i];", "    for (var k = 0; k < query_context.unnest_list.length; k++) {\n        out_fields[unnest_pos] = query_context.unnest_list[k];"),
 ]
 
@@ -106,7 +115,8 @@ def apply_edit(tree, edit):
     if old is None:
         out = special(name, text)
     else:
-        if text.count(old) != 1:
+        want = edit[4] if len(edit) > 4 else 1
+        if text.count(old) != want:
             return 'anchor text occurs {} times'.format(text.count(old))
         out = text.replace(old, new)
     if out == text:
